@@ -65,6 +65,20 @@ Theorem C20_same_adaptor_twice : forall (A : Type) (c : list A),
 Proof. intros A c. split; [exact (enumerate_twice_spec A c) | exact (reverse_twice_spec A c)]. Qed.
 Print Assumptions C20_same_adaptor_twice.
 
+(* ... and any number of times: k range-for statements over ONE named adaptor object (begin()/end() do not consume
+   it).  Read-only passes all visit the same sequence and leave the range alone; with writing passes, pass j visits the
+   whole range as pass j-1 left it, indices from 0 again *)
+Theorem C20_same_adaptor_k_passes : forall (A : Type) (k : nat) (c : list A),
+  enumerate_passes A (repeat (keep_e A) k) c = Done (repeat (combine (seq 0 (length c)) c) k, c) /\
+  reverse_passes A (repeat (keep_r A) k) c = Done (repeat (rev c) k, c).
+Proof. intros A k c. split; [exact (enumerate_passes_read_only A k c) | exact (reverse_passes_read_only A k c)]. Qed.
+Print Assumptions C20_same_adaptor_k_passes.
+
+Theorem C20_same_adaptor_passes_with_writes : forall (A : Type) (c : list A),
+  (forall fs : list (nat -> A -> A), enumerate_passes A fs c = Done (spec_enumerate_passes fs c)) /\ (forall fs : list (A -> A), reverse_passes A fs c = Done (spec_reverse_passes fs c)).
+Proof. intros A c. split; intros fs; [exact (enumerate_passes_spec A fs c) | exact (reverse_passes_spec A fs c)]. Qed.
+Print Assumptions C20_same_adaptor_passes_with_writes.
+
 Theorem C20_nested_loops : forall (A : Type) (c : list A),
   enumerate_nested A c = Done (map (fun p => (p, Done (combine (seq 0 (length c)) c))) (combine (seq 0 (length c)) c)) /\
   enumerate_reverse_nested A c = Done (map (fun p => (p, Done (rev c))) (combine (seq 0 (length c)) c)).
